@@ -453,6 +453,7 @@ def run_prop(prop, ctx):
                 st.name += "(C02 oracle)"
                 st.violations = [v for v in st.violations if "label" in v["what"]]
                 streams.append(st)
+        streams.append(run.repeat_stream())
         return streams
     finally:
         run.close()
